@@ -101,6 +101,8 @@ def run_replay_case(mod, data):
     """re-evaluate one stored case through its oracle, without Hypothesis.
     -> None if the property holds for it now, else a failure dict"""
     rec = Recorder()
+    for k, v in (data.get("env") or {}).items():
+        os.environ[k] = v
     oracle = mod.ORACLES[data["oracle"]]
     try:
         oracle(rec, common.U(data["case"]))
